@@ -42,6 +42,7 @@ Section LoadProofs.
   Variable regcomp_ok : bool -> text -> bool.
   Variable resolves : text -> text -> bool.
   Variable is_chardev : text -> bool.
+  Variable stale_erange : text -> bool.
   Variable lend : lex_end.
   Hypothesis Hlend : lend_ok lend.
 
@@ -80,10 +81,16 @@ Section LoadProofs.
     destruct (Z.leb _ m); [reflexivity|]. destruct (Z.ltb _ _); [reflexivity | exact I].
   Qed.
 
-  Lemma do_strtolong_sp c s : sp (fun _ => True) (do_strtolong c s).
-  Proof. unfold do_strtolong. destruct (strtol0 s); cbn [sp]; first [reflexivity | exact I]. Qed.
+  (* holds for BOTH answers of the stale-errno oracle: a spurious refusal is still an exit with a diagnostic *)
+  Lemma do_strtolong_sp c s : sp (fun _ => True) (do_strtolong stale_erange c s).
+  Proof.
+    unfold do_strtolong. destruct (strtol0 s) as [| |v]; [apply sp_fail | apply sp_fail |].
+    (* written so that it also checks when GenLex.errno_cleared_strtol = true (F30 applied): no reduction before the case split *)
+    generalize (negb errno_cleared_strtol && stale_erange s && ((v =? 2 ^ 63 - 1) || (v =? - 2 ^ 63)))%Z.
+    intros b; destruct b; [apply sp_fail | exact I].
+  Qed.
 
-  Lemma conv_mp_sp c o : sp (fun _ => True) (conv_mp c o).
+  Lemma conv_mp_sp c o : sp (fun _ => True) (conv_mp stale_erange c o).
   Proof.
     unfold conv_mp. destruct o; [|exact I]. eapply sp_bind; [apply do_strtolong_sp|]. intros; exact I.
   Qed.
@@ -119,7 +126,7 @@ Section LoadProofs.
   Qed.
 
   Lemma parse_simple_sp n c k r : (length r < n)%nat ->
-    sp (fun p => (length (snd p) < length r)%nat) (parse_simple lend n c k r).
+    sp (fun p => (length (snd p) < length r)%nat) (parse_simple stale_erange lend n c k r).
   Proof.
     intros L. unfold parse_simple. destruct k; try apply sp_fail.
     - (* delay *)
@@ -152,7 +159,7 @@ Section LoadProofs.
   Qed.
 
   Lemma parse_stmts_sp : forall n c toks acc, (length toks < n)%nat ->
-    sp (fun p => (length (snd p) < length toks)%nat) (parse_stmts lend n c toks acc).
+    sp (fun p => (length (snd p) < length toks)%nat) (parse_stmts stale_erange lend n c toks acc).
   Proof.
     induction n as [|n IH]; intros c toks acc L; [lia|].
     cbn [parse_stmts]. bind_with next_sp. intros [t r] [H1 H2]; cbn [fst snd] in *.
@@ -176,12 +183,13 @@ Section LoadProofs.
     destruct t as [t|]; [|apply sp_fail].
     assert (R : (length r < length toks)%nat) by (apply H2; discriminate).
     destruct t; try apply sp_fail.
-    - eapply sp_weaken; [apply IH; lia|]. intros p Hp; cbn beta in Hp. lia.
+    - destruct (plugnames_checked && mem_text s acc); [apply sp_fail|].
+      eapply sp_weaken; [apply IH; lia|]. intros p Hp; cbn beta in Hp. lia.
     - destruct acc; [apply sp_fail|]. cbn [sp snd]. assumption.
   Qed.
 
   Lemma parse_spec_items_sp : forall n c toks sp0 k, (length toks < n)%nat ->
-    sp (fun p => (length (snd p) < length toks)%nat) (parse_spec_items lend n c toks sp0 k).
+    sp (fun p => (length (snd p) < length toks)%nat) (parse_spec_items stale_erange lend n c toks sp0 k).
   Proof.
     induction n as [|n IH]; intros c toks sp0 k L; [lia|].
     cbn [parse_spec_items]. bind_with next_sp. intros [t r] [H1 H2]; cbn [fst snd] in *.
@@ -234,7 +242,7 @@ Section LoadProofs.
     - right. apply IH; assumption.
   Qed.
 
-  Lemma parse_hoststr_sp c host flags : sp (fun _ => True) (parse_hoststr resolves is_chardev c host flags).
+  Lemma parse_hoststr_sp c host flags : sp (fun _ => True) (parse_hoststr resolves is_chardev stale_erange c host flags).
   Proof.
     unfold parse_hoststr.
     destruct (contains_pipe host).
@@ -247,7 +255,7 @@ Section LoadProofs.
   Qed.
 
   Lemma make_device_sp c name spec host flags :
-    cinv c -> sp cinv (make_device regcomp_ok resolves is_chardev c name spec host flags).
+    cinv c -> sp cinv (make_device regcomp_ok resolves is_chardev stale_erange c name spec host flags).
   Proof.
     intros [C1 C2]. unfold make_device. destruct (find_spec spec (c_specs c)) as [s|] eqn:F; [|apply sp_fail].
     eapply sp_bind; [apply parse_hoststr_sp|]. intros tr _.
@@ -299,7 +307,7 @@ Section LoadProofs.
   Proof. intros C. unfold validate. destruct (_ && _); [exact C | apply sp_fail]. Qed.
 
   Lemma parse_items_sp : forall n c toks, cinv c -> (length toks < n)%nat ->
-    sp cinv (parse_items hl_expand regcomp_ok resolves is_chardev lend n c toks).
+    sp cinv (parse_items hl_expand regcomp_ok resolves is_chardev stale_erange lend n c toks).
   Proof.
     induction n as [|n IH]; intros c toks C L; [lia|].
     cbn [parse_items]. bind_with next_sp. intros [t r] [H1 H2]; cbn [fst snd] in *.
@@ -314,8 +322,8 @@ Section LoadProofs.
       bind_with expect_str_sp. intros [s1 r1] L1; cbn [snd] in L1. bind_with expect_str_sp. intros [s2 r2] L2; cbn [snd] in L2.
       bind_with expect_str_sp. intros [s3 r3] L3; cbn [snd] in L3.
       bind_with next_sp. intros [t4 r4] [H3 H4]; cbn [fst snd] in *.
-      assert (D : sp cinv (bind (make_device regcomp_ok resolves is_chardev c s1 s2 s3 None)
-                             (fun c' => parse_items hl_expand regcomp_ok resolves is_chardev lend n c' r3))).
+      assert (D : sp cinv (bind (make_device regcomp_ok resolves is_chardev stale_erange c s1 s2 s3 None)
+                             (fun c' => parse_items hl_expand regcomp_ok resolves is_chardev stale_erange lend n c' r3))).
       { eapply sp_bind; [apply make_device_sp; assumption|]. intros c' C'. apply IH; [assumption | lia]. }
       destruct t4 as [[]|]; try exact D.
       eapply sp_bind; [apply make_device_sp; assumption|]. intros c' C'. apply IH; [assumption | lia].
@@ -325,7 +333,7 @@ Section LoadProofs.
       bind_with expect_str_sp. intros [s1 r1] L1; cbn [snd] in L1. bind_with expect_str_sp. intros [s2 r2] L2; cbn [snd] in L2.
       bind_with next_sp. intros [t3 r3] [H3 H4]; cbn [fst snd] in *.
       assert (D : sp cinv (bind (make_node hl_expand c s1 s2 None)
-                             (fun c' => parse_items hl_expand regcomp_ok resolves is_chardev lend n c' r2))).
+                             (fun c' => parse_items hl_expand regcomp_ok resolves is_chardev stale_erange lend n c' r2))).
       { eapply sp_bind; [apply make_node_sp; assumption|]. intros c' C'. apply IH; [assumption | lia]. }
       destruct t3 as [[]|]; try exact D.
       eapply sp_bind; [apply make_node_sp; assumption|]. intros c' C'. apply IH; [assumption | lia].
@@ -343,7 +351,7 @@ Section LoadProofs.
     - (* tcpwrappers *)
       bind_with next_sp. intros [t1 r1] [H3 H4]; cbn [fst snd] in *.
       assert (D : sp cinv (bind (set_tcpwrap (mkCfg (c_specs c) (c_devs c) (c_nodes c) (c_aliases c) (c_listen c) true) true)
-                             (fun c' => parse_items hl_expand regcomp_ok resolves is_chardev lend n c' r))).
+                             (fun c' => parse_items hl_expand regcomp_ok resolves is_chardev stale_erange lend n c' r))).
       { eapply sp_bind; [apply set_tcpwrap_sp; destruct C; split; assumption|]. intros c' C'. apply IH; [assumption | lia]. }
       destruct t1 as [[k1| | | | | | | |]|]; try exact D.
       destruct k1; try exact D.
@@ -351,27 +359,27 @@ Section LoadProofs.
         assert (length r1 < length r)%nat by (apply H4; discriminate); lia.
   Qed.
 
-  Lemma load_stream_sp toks : sp cinv (load_stream hl_expand regcomp_ok resolves is_chardev lend toks).
+  Lemma load_stream_sp toks : sp cinv (load_stream hl_expand regcomp_ok resolves is_chardev stale_erange lend toks).
   Proof. unfold load_stream. apply parse_items_sp; [apply cinv_empty | lia]. Qed.
 
 End LoadProofs.
 
 (* ------------------------------------------------------------------ exported statements *)
-Theorem load_stream_total : forall hl_expand regcomp_ok resolves is_chardev lend toks,
+Theorem load_stream_total : forall hl_expand regcomp_ok resolves is_chardev stale_erange lend toks,
   lend_ok lend ->
-  (exists c, load_stream hl_expand regcomp_ok resolves is_chardev lend toks = Ok c) \/
-  (exists s, load_stream hl_expand regcomp_ok resolves is_chardev lend toks = Exit 1 s).
+  (exists c, load_stream hl_expand regcomp_ok resolves is_chardev stale_erange lend toks = Ok c) \/
+  (exists s, load_stream hl_expand regcomp_ok resolves is_chardev stale_erange lend toks = Exit 1 s).
 Proof.
-  intros hl re gai chr lend toks H. pose proof (load_stream_sp hl re gai chr lend H toks) as S.
-  destruct (load_stream hl re gai chr lend toks); cbn [sp] in S; try contradiction.
+  intros hl re gai chr stale lend toks H. pose proof (load_stream_sp hl re gai chr stale lend H toks) as S.
+  destruct (load_stream hl re gai chr stale lend toks); cbn [sp] in S; try contradiction.
   - left; eexists; reflexivity.
   - subst. right; eexists; reflexivity.
 Qed.
 
-Theorem load_stream_accepted : forall hl_expand regcomp_ok resolves is_chardev lend toks c,
+Theorem load_stream_accepted : forall hl_expand regcomp_ok resolves is_chardev stale_erange lend toks c,
   lend_ok lend ->
-  load_stream hl_expand regcomp_ok resolves is_chardev lend toks = Ok c -> mandatory_ok c = true.
+  load_stream hl_expand regcomp_ok resolves is_chardev stale_erange lend toks = Ok c -> mandatory_ok c = true.
 Proof.
-  intros hl re gai chr lend toks c H E. pose proof (load_stream_sp hl re gai chr lend H toks) as S.
+  intros hl re gai chr stale lend toks c H E. pose proof (load_stream_sp hl re gai chr stale lend H toks) as S.
   rewrite E in S. cbn [sp] in S. destruct S as [_ S]. exact S.
 Qed.
